@@ -138,7 +138,8 @@ Fixpoint s2_stmt (x : stmt) : bool :=
   | SWith _ items b => forallb s2_with_item items && blk b
   | STry _ b hs o f => blk b && is_nil hs && blk o && blk f
   | SPass _ => true
-  | SDoc _ ex br => is_nil ex && is_nil br         (* a plain docstring / string statement: no doctest example, no {brace} *)
+  | SDoc _ _ _ => true       (* a docstring / string statement: nothing for `finder`; what its doctest examples may be is
+                                [dx_docs] below (the theorems about finder_doc / pysem_doc ask for it) *)
   | SAllAssign _ _ | SClass _ _ _ _ _ _ => false
   end.
 Definition s2_block (l : list stmt) : bool := forallb s2_stmt l.
@@ -241,7 +242,7 @@ Fixpoint s3_stmt (x : stmt) : bool :=
   | SWith _ items b => forallb s3_with_item items && blk b
   | STry _ b hs o f => blk b && is_nil hs && blk o && blk f
   | SPass _ => true
-  | SDoc _ ex br => is_nil ex && is_nil br
+  | SDoc _ _ _ => true
   | SAllAssign _ _ | SClass _ _ _ _ _ _ => false
   end.
 Definition s3_block (l : list stmt) : bool := forallb s3_stmt l.
@@ -254,3 +255,10 @@ Definition u3_top (x : stmt) : bool :=
   | _ => s3_stmt x && noimp_stmt x
   end.
 Definition u3_block (l : list stmt) : bool := forallb u3_top l.
+
+(* ---------- doctest examples (scan_for_import_issues(parse_docstrings=True), what tidy-imports runs) ----------
+   Every doctest example of every docstring of the program is an expression statement made of loads, attribute
+   accesses and operators / calls (no nested scope, no store).  {brace} identifiers are not restricted. *)
+Definition dx_stmt (x : stmt) : bool := match x with SExpr _ e => s1_expr e | _ => false end.
+Definition dx_doc (d : docstring) : bool := forallb dx_stmt (fst d).
+Definition dx_docs (p : program) : bool := forallb dx_doc (docstrings_of p).
